@@ -415,3 +415,43 @@ def hex_(tier, seed, params):
                 for p in precs:
                     out.append("n=%d upper=%d prec=%s a=%d b=%d" % (n, upper, p, a, b))
     return out
+
+
+HEAP_NS = [0, 1, 2, 3, 4, 5, 7, 8, 16, 17, 33, 256, 1024]
+HEAP_KINDS = ["u32", "u64", "b3", "unit", "tr", "z"]
+
+
+def heap_c16(tier, seed, params):
+    out = []
+    for kind in HEAP_KINDS:
+        for n in HEAP_NS:
+            for op in ("boxed_generate", "default_boxed"):
+                out.append("op=%s n=%d kind=%s fault=none" % (op, n, kind))
+                out.append("op=%s n=%d kind=%s fault=alloc:0" % (op, n, kind))
+                ks = range(n) if (n <= 8 or tier == "thorough") and n <= 33 else sorted(set([0, n // 2, n - 1])) if n > 0 else []
+                for k in ks:
+                    out.append("op=%s n=%d kind=%s fault=call:%d" % (op, n, kind, k))
+            if n <= 33:
+                for op in ("box_map", "box_zip"):
+                    out.append("op=%s n=%d kind=%s fault=none" % (op, n, kind))
+                    for k in (range(n) if n <= 8 else [0, n - 1]):
+                        out.append("op=%s n=%d kind=%s fault=call:%d" % (op, n, kind, k))
+    return out + heap_c15(tier, seed, params)
+
+
+def heap_c15(tier, seed, params):
+    out = []
+    for kind in HEAP_KINDS:
+        for n in HEAP_NS:
+            if n > 256:
+                continue
+            for l in sorted(set([0, max(0, n - 1), n, n + 1])):
+                for cap in sorted(set([l, l + 3])):
+                    out.append("op=try_from_vec n=%d l=%d cap=%d kind=%s" % (n, l, cap, kind))
+                for op in ("try_from_boxed_slice", "vec_try_into", "box_slice_try_into", "boxed_collect"):
+                    out.append("op=%s n=%d l=%d kind=%s" % (op, n, l, kind))
+            for op in ("into_boxed_slice", "into_vec", "from_ga_box_slice", "from_ga_vec", "box_into_iter"):
+                out.append("op=%s n=%d kind=%s" % (op, n, kind))
+    for op in ("big_default_boxed", "big_boxed_generate", "big_box_arr", "big_boxed_collect", "big_into_vec"):
+        out.append("op=%s" % op)
+    return out
